@@ -54,6 +54,8 @@ def canonical(root):
             return ("float", repr(x))
         if isinstance(x, (int, str, bytes, bool, type(None), complex)):
             return (type(x).__name__, repr(x))
+        if type(x).__module__ in ("re", "datetime", "decimal", "fractions") or isinstance(x, range):
+            return (type(x).__name__, repr(x))       # immutable standard-library values: compared by their repr
         if isinstance(x, type):
             return ("class", _qual(x))
         if callable(x) and hasattr(x, "__qualname__"):
